@@ -461,12 +461,27 @@ def run(ctx):
     check_forward(ctx, prog)
     check_reply_port(ctx, prog)
     check_multi(ctx, prog)
+    # premise of "a callee that drains without replying makes the caller see SenderError instead of hanging": the drain completes - its marker is emitted exactly
+    # once even when the drain overlaps a send that holds an admission ticket (then the actor stops and its queued / kept reply ports are dropped: C07 loop side,
+    # C08). One instance of the mailbox BMC shared with C07, reported under this property.
+    import mailbox as mb
+    mprog = mb.load()[0]
+    for fn in (mb.SEND, mb.DRAIN, '<MessageAdmission as Drop>::drop', 'ActorProperties::send_drain_marker'):
+        b = mprog.find_fn(fn)
+        if b is None:
+            raise Inconclusive('function not found in dump: ' + fn)
+        ctx.encoded(mprog, b)
+    mb.run_instance(ctx, 'C07', mprog, 'drain_completes.s2x1_d1_r2', 2, 1, 1, 0, 2, 2)
+    ctx.bounds['drain_completes'] = '2 senders x 1 message + 1 drainer, 2 rounds, CAS unroll 2 (the C07 instance s2x1_d1_r2)'
 
 
 def replay_file(path):
     import json
     import C09_replay
     d = json.load(open(path))
+    if (d.get('replay') or {}).get('scenario') == 'mailbox':
+        import mailbox_replay
+        return mailbox_replay.replay_from_json(d)
     r = C09_replay.replay(d['replay']['which'], d['replay'].get('args', {}))
     print(r['detail'])
     return 1 if r['replayed'] else 0
